@@ -94,6 +94,7 @@ type Stats struct {
 func Explore(bound int, maxExec int, scenario func(x *X), visit func(x *X) bool) Stats {
 	st := Stats{}
 	prefix := []int{}
+	var prev []Choice
 	for {
 		x := &X{prefix: prefix}
 		cur = x
@@ -102,7 +103,18 @@ func Explore(bound int, maxExec int, scenario func(x *X), visit func(x *X) bool)
 			scenario(x)
 		}()
 		if len(x.Choices) < len(prefix) {
-			panic(HarnessError{fmt.Sprintf("HARNESS-NONDETERMINISM: execution took %d choices, forced prefix has %d", len(x.Choices), len(prefix))})
+			tail := func(cs []Choice) string {
+				out := ""
+				from := len(cs) - 8
+				if from < 0 {
+					from = 0
+				}
+				for _, c := range cs[from:] {
+					out += fmt.Sprintf("[%s %d/%d] ", c.Label, c.Pick, c.N)
+				}
+				return out
+			}
+			panic(HarnessError{fmt.Sprintf("HARNESS-NONDETERMINISM: execution took %d choices, forced prefix has %d\n this run ends: %s\n previous run (same prefix) was: %s", len(x.Choices), len(prefix), tail(x.Choices), tail(prev))})
 		}
 		st.Executions++
 		if len(x.Choices) > st.MaxChoices {
@@ -144,6 +156,7 @@ func Explore(bound int, maxExec int, scenario func(x *X), visit func(x *X) bool)
 		}
 		np[next] = x.Choices[next].Pick + 1
 		prefix = np
+		prev = x.Choices
 	}
 }
 
